@@ -473,3 +473,54 @@ def check_unorderable(case):
         return _check_truth(case)
     except TypeError as e:
         return Fail("the gate raised TypeError: %s" % (str(e)[:120],), key="unorderable-labels-typeerror")
+
+
+# ---------------------------------------------------------------------------------------------
+# round 5: a leading label decides the type of the result, whatever the later operands are
+# ---------------------------------------------------------------------------------------------
+def _gen_leading_label(ctx):
+    restrictive = [("var", "QUBO", 2), ("model", "QUBO", {(2, 3): 1}), ("var", "PUBOMatrix", 0),
+                   ("var", "QUBOMatrix", 1), ("model", "PUBOMatrix", {(0, 1): 1}), ("model", "QUBOMatrix", {(0, 1): 1})]
+    leads = [_L('a'), _L(0), _L(('t', 1))]
+    for g in GATESN:
+        for lead in leads:
+            for r in restrictive:
+                yield {"expr": (g, lead, r)}
+                yield {"expr": (g, lead, _L(1), r)}
+                yield {"expr": (g, lead, r, _L('b'))}
+                yield {"expr": (g, (("OR", "AND", "XOR")[len(r[1]) % 3], lead, _L(3)), r, ("NOT", _L(4)))}
+    rng = ctx.rng("c07.leading")
+    for _ in range(ctx.pick(300, 6000)):
+        g = rng.choice(GATESN)
+        ops = [rng.choice(leads)]
+        for _ in range(rng.choice([1, 2, 3])):
+            ops.append(rng.choice(restrictive + [_L(rng.choice(MIXED)), ("NOT", _L(rng.choice(MIXED)))]))
+        yield {"expr": tuple([g] + ops)}
+
+
+@clause("C07.leading_label_operand", "C07", gen=_gen_leading_label, nontrivial=_nontrivial)
+def check_leading_label(case):
+    """A gate whose first operand is a label (or a gate over labels) builds a PUBO, so later operands of a more
+    restrictive type - QUBO models in expressions over more than two variables, Matrix types next to non-integer
+    labels - cannot make it fail: the result evaluates to the truth value of the expression on every assignment and
+    no KeyError is raised. Non-trivial: both truth values occur."""
+    e = case["expr"]
+    if not _well_formed(e) or not _is_gate(e):
+        return Skip("not a gate expression")
+    vs = _labels_of(e)
+    table = [(x, _tv(e, x)) for x in assignments(vs)]
+    if any(t is None for _, t in table):
+        return Skip("a model operand is not {0,1}-valued")
+    try:
+        P = _run(e, [])
+    except KeyError as ex:
+        if not _innermost_in_repo(sys.exc_info()[2]):
+            raise
+        return Fail("%s with a leading label raised KeyError: %s" % (e[0], ex), key="raised:KeyError:" + e[0])
+    terms = {k: v for k, v in dict.items(P)}
+    for x, want in table:
+        have = peval(terms, x)
+        if have != want:
+            return Fail("at %r: model evaluates to %r, truth value is %r; model %r" % (x, have, want, terms),
+                        key="truth-differs:" + e[0], observed=have, required=want)
+    return None
